@@ -26,10 +26,15 @@ def kida(r):
 
 
 def umist(r):
-    """UMIST RATE12: idx:code:R1:R2:P1:P2:P3:P4:NE:alpha:beta:gamma:Tl:Tu:ST:ACC:ref:ref:"""
+    """UMIST RATE12: idx:code:R1:R2:P1:P2:P3:P4:NE:alpha:beta:gamma:Tl:Tu:ST:ACC:ref:ref:  -- an entry tabulated with
+    several fits (NE > 1) repeats the block alpha:beta:gamma:Tl:Tu:ST:ACC:ref:ref for each further temperature range
+    (r['fits'] = [(a, b, c, tl, tu), ...]); the tool reads one reaction per line, from the first block"""
     rs = list(r["reactants"]) + [""] * (2 - len(r["reactants"]))
     ps = list(r["products"]) + [""] * (4 - len(r["products"]))
-    return ":".join([str(r["idx"]), r["code"], *rs, *ps, "1", r["a"], r["b"], r["c"], str(r["tmin"]), str(r["tmax"]), "L", "C", '"ref"', '"notes"', ""])
+    more = []
+    for a, b, c, tl, tu in r.get("fits", []):
+        more += [a, b, c, str(tl), str(tu), "M", "A", '"10.1000/ref:2"', '"notes"']
+    return ":".join([str(r["idx"]), r["code"], *rs, *ps, str(1 + len(r.get("fits", []))), r["a"], r["b"], r["c"], str(r["tmin"]), str(r["tmax"]), "L", "C", '"10.1051/0004-6361:20020882"' if more else '"ref"', '"notes"', *more, ""])
 
 
 def leeds(r):
